@@ -193,7 +193,9 @@ def _batch_list(draw, nr):
     nd = R.non_divisor(nr)
     if nd:
         must.add(nd)
-    extra = draw(st.lists(st.integers(1, nr), min_size=0, max_size=2))
+    if nr <= 9:
+        return list(range(1, nr + 1))
+    extra = draw(st.lists(st.integers(1, nr), min_size=0, max_size=3))
     return sorted(b for b in must.union(extra) if b >= 1)
 
 
@@ -561,5 +563,5 @@ def check(ctx, case):
 
 def search(ctx):
     _q()
-    core.run_given(ctx, "meta", meta_cases(), lambda c: check(ctx, c), ctx.n(300, 3000))
-    core.run_given(ctx, "analytic", analytic_cases(), lambda c: check(ctx, c), ctx.n(300, 3000))
+    core.run_given(ctx, "meta", meta_cases(), lambda c: check(ctx, c), ctx.n(450, 6000))
+    core.run_given(ctx, "analytic", analytic_cases(), lambda c: check(ctx, c), ctx.n(700, 12000))
